@@ -197,6 +197,8 @@ func vxC03Decision() {
 	s.conf.TLSConf = &TLSConfig{}
 	pctx := &proxy.DNSContext{Proto: proto, Addr: netip.AddrPortFrom(ip, 53), Req: vxC03Req(nq), RequestID: 1}
 	outcome, rcode := vxC03Run(s, pctx)
+	vx.Note(outcome)
+	vx.Note(rcode)
 
 	// Reference, from the statement.
 	id := ""
@@ -333,6 +335,7 @@ func vxC03Lists() {
 		}
 	}
 	blocked, _ := s.IsBlockedClient(ip, id)
+	vx.Note(blocked)
 	cov := covers(v6, raw, id)
 	if inAllowed {
 		vx.Reach("list-allowed")
